@@ -285,6 +285,62 @@ def explore_config(case):
             "reps": [list(r) for r in stats["representatives"][-3:]], "outcome": list(kinds) or ["consistent"]}
 
 
+HOLD_OPS = ["simA", "simB", "simC", "simA+S1", "rf", "rf_density", "interp"]
+
+
+def explore_held(case):
+    """Results handed out earlier stay what they were: every history over HOLD_OPS up to the depth bound is executed on
+    one object while the harness HOLDS (without copying) everything the object handed out - the stored field after each
+    simulate, each returned recovery array, each interpolator object - next to a snapshot taken at that moment; after
+    every later call each held item must still equal its snapshot (interpolators are re-evaluated at the probe times).
+    A later simulate that recycles the result buffer, a recovery array updated in place, an interpolator that reads the
+    object's arrays when it is called all turn a result the caller still holds into the result of another run."""
+    cfg = tuple(case["config"])
+    g = grids(cfg)
+    ops_ok = [o for o in HOLD_OPS if not (cfg[0] == "ideal" and "+" in o)]
+    viol, n_hist, n_checks, outcomes = [], 0, 0, set()
+    for depth in range(2, case["depth"] + 1):
+        for hist in itertools.product(ops_ok, repeat=depth):
+            if hist[0] not in SIM_OPS:
+                continue  # reads before the first simulate raise: nothing is handed out
+            n_hist += 1
+            obj = fresh(cfg)
+            held = []  # (position, kind, live object, snapshot)
+            for k, op in enumerate(hist):
+                if op in SIM_OPS:
+                    name, _, sname = op.partition("+")
+                    t = g[name[3:]].copy()
+                    obj.simulate(t, schedules(cfg[2], cfg[3], len(t))[sname].copy()) if sname else obj.simulate(t)
+                    new = [("field", obj.pseudopressure, np.array(obj.pseudopressure, copy=True))]
+                elif op == "interp":
+                    f = obj.recovery_factor_interpolator()
+                    new = [("interpolator", f, np.array(f(PROBES), dtype=float, copy=True))]
+                else:
+                    r = obj.recovery_factor(density=(op == "rf_density"))
+                    new = [("recovery", r, np.array(r, copy=True))]
+                for pos, kind, live, snap in held:
+                    n_checks += 1
+                    try:
+                        now = np.asarray(live(PROBES), dtype=float) if kind == "interpolator" else np.asarray(live)
+                    except Exception as e:  # noqa: BLE001 - an interpolator that stops working after a later call
+                        now = np.array([f"{type(e).__name__}"])
+                    if not history.same(now, snap):
+                        outcomes.add("held-result-changed")
+                        viol.append(V("held-result-changed", f"history {list(hist[:k + 1])}: the {kind} handed out by call "
+                                      f"{pos} ({hist[pos]}) changed when call {k} ({op}) was made - the caller's result of an "
+                                      "earlier run now holds values of another run", case={"config": list(cfg), "held": True,
+                                                                                           "history": list(hist[:k + 1])}))
+                        break
+                else:
+                    held += [(k, *x) for x in new]
+                    continue
+                break
+    outcomes = outcomes or {"held-results-stable"}
+    viol.sort(key=lambda v: len(v["case"]["history"]))
+    return {"violations": viol[:3], "reps": [], "outcome": sorted(outcomes),
+            "stats": {"states": n_hist, "transitions": n_checks, "depth_reached": case["depth"], "frontier_closed_before_bound": True}}
+
+
 PAIR_OPS = ["simA", "simB", "rf", "rf_density", "interp"]
 
 
@@ -399,6 +455,8 @@ def explore_any(case):
         return explore_tlc(case)
     if case.get("orders"):
         return explore_orders(case)
+    if case.get("held"):
+        return explore_held(case)
     return explore_pair(case) if "configs" in case else explore_config(case)
 
 
@@ -413,6 +471,7 @@ def run(ctx):
     cs += [{"tlc": "ext", "config": list(c), "part": [k, 4]} for c in CONFIGS[:2] for k in range(4)]
     cs += [{"orders": True, "config": list(CONFIGS[0]), "depth": 3 if ctx.thorough else 2},
            {"orders": True, "config": list(CONFIGS[1]), "depth": 2}]
+    cs += [{"held": True, "config": list(c), "depth": 4 if ctx.thorough else 3} for c in CONFIGS]
     # 60 nodes, 128 levels (staleness gated on the size of the run), explored to depth 2 / 3
     cs += [{"config": list(CONFIGS[0]) + ["big"], "depth": 3 if ctx.thorough else 2}]
     res = ctx.pmap(explore_any, cs, chunksize=1)
@@ -439,6 +498,8 @@ def run(ctx):
 
 
 def replay(case):
+    if case.get("held"):
+        return explore_held({"config": case["config"], "depth": len(case["history"])})["violations"]
     if case.get("tlc_ext"):
         return explore_tlc({"tlc": "ext", "config": case["config"]})["violations"]
     if "model_edge" in case:
